@@ -112,6 +112,37 @@ TOGGLE = HEAD + """    state = Port.output(Bit)
             self.falling <<= tg.falling()
 """
 
+TOGGLE_RT = HEAD + """    f = Port.input(Unsigned[2])
+    s = Port.input(Unsigned[2])
+    state = Port.output(Bit)
+    rising = Port.output(Bit)
+    falling = Port.output(Bit)
+
+    def architecture(self):
+        ctx = std.SequentialContext(std.Clock(self.clk))
+        tg = std.ToggleSignal(ctx, self.f, self.s, default_state={ds}, first_state={fs})
+
+        @std.concurrent
+        def logic():
+            self.state <<= tg.state()
+            self.rising <<= tg.rising()
+            self.falling <<= tg.falling()
+"""
+
+DIVIDER_RT = HEAD + """    p = Port.input(Unsigned[3])
+    state = Port.output(Bit)
+    rising = Port.output(Bit)
+
+    def architecture(self):
+        ctx = std.SequentialContext(std.Clock(self.clk))
+        div = std.ClockDivider(ctx, self.p)
+
+        @std.concurrent
+        def logic():
+            self.state <<= div.state()
+            self.rising <<= div.rising()
+"""
+
 DEBOUNCE = HEAD + """    x = Port.input(Bit)
     o = Port.output(Bit)
 
@@ -176,6 +207,15 @@ def util_cases(tier):
                 out.append((f"toggle_{a}_{b}_{int(ds)}{int(fs)}", TOGGLE.format(a=a, b=b, ds=ds, fs=fs),
                             dict(step=f"toggle_step {a}%Z {b}%Z {str(ds).lower()} {str(fs).lower()}", init=f"[0%Z; {int(ds)}%Z]"),
                             {"util": "ToggleSignal", "first": a, "second": b, "default_state": ds, "first_state": fs}))
+    for ds in (False, True):
+        for fs in ((False,) if not big else (False, True)):
+            out.append((f"toggle_rt_{int(ds)}{int(fs)}", TOGGLE_RT.format(ds=ds, fs=fs),
+                        dict(step=f"toggle_rt_step {str(ds).lower()} {str(fs).lower()}", init=f"[0%Z; {int(ds)}%Z]",
+                             assume="toggle_rt_assume"),
+                        {"util": "ToggleSignal", "first": "run-time 2 bits", "second": "run-time 2 bits", "default_state": ds, "first_state": fs}))
+    out.append(("divider_rt", DIVIDER_RT,
+                dict(step="divider_rt_step", init="[0%Z; 0%Z]", assume="divider_rt_assume"),
+                {"util": "ClockDivider", "duration": "run-time 3 bits"}))
     for p in ([1, 2, 3, 4] if not big else [1, 2, 3, 4, 5, 6, 7, 8]):
         for init in (False, True):
             out.append((f"debounce_p{p}_{int(init)}", DEBOUNCE.format(p=p, init=init),
